@@ -169,7 +169,7 @@ def run_rows_case(case):
 
         def go():
             rules = MU.get_all_rules(rules_path)
-            txns = PA.parse_generic_csv(csv_path, spec, rules, source_name='S')
+            txns = PA.parse_generic_csv(csv_path, spec, rules, source_name='S', transforms=MU.get_transforms(rules_path))
             return sorted([t['raw_description'] if 'raw_description' in t else t['description'], t['merchant'], t['category'],
                            t['subcategory'], sorted({noaddr(x) for x in t.get('tags', [])})] for t in txns)
         out[label] = guarded(go)
